@@ -26,7 +26,9 @@ type Ent = (RecordKey, RecordType);
 #[derive(Clone, Debug)]
 enum Call {
     Ad { holder: usize, keys: Vec<(usize, RecordType)> },
-    Put { key: usize, ty: RecordType },
+    /// a record is stored locally as `ty`; `arrival_of` = the in-flight version whose fetch brought it (a fetched
+    /// register / transaction set is merged with the local one and stored under the hash of the merge)
+    Put { key: usize, ty: RecordType, arrival_of: Option<RecordType> },
     Early { key: usize, ty: RecordType },
     Next,
     SetRange(D32),
@@ -76,7 +78,7 @@ fn ty_str(t: &RecordType) -> String {
 fn call_json(w: &World, c: &Call) -> serde_json::Value {
     match c {
         Call::Ad { holder, keys } => json!({"ad": {"holder": holder, "keys": keys.iter().map(|(k, t)| format!("k{k}:{}", ty_str(t))).collect::<Vec<_>>()}}),
-        Call::Put { key, ty } => json!({"put": format!("k{key}:{}", ty_str(ty))}),
+        Call::Put { key, ty, arrival_of } => json!({"put": format!("k{key}:{}", ty_str(ty)), "arrival_of_fetched_version": arrival_of.as_ref().map(ty_str)}),
         Call::Early { key, ty } => json!({"early_completed": format!("k{key}:{}", ty_str(ty))}),
         Call::Next => json!("next_keys_to_fetch"),
         Call::SetRange(r) => json!({"set_range": short_hex(r)}),
@@ -160,7 +162,7 @@ impl Runner<'_, '_> {
                     keys.iter().map(|(k, t)| (NetworkAddress::from_record_key(&self.w.keys[*k]), t.clone())).collect();
                 self.f.add_keys(self.w.holders[*holder], incoming, &self.w.store)
             }
-            Call::Put { key, ty } => {
+            Call::Put { key, ty, .. } => {
                 let k = self.w.keys[*key].clone();
                 self.w.store.insert(k.clone(), (NetworkAddress::from_record_key(&k), ty.clone()));
                 self.f.notify_about_new_put(k, ty.clone())
@@ -304,7 +306,15 @@ impl Runner<'_, '_> {
         }
         // I. arrival / completion removes the in-flight entry
         match &call {
-            Call::Put { key, ty } | Call::Early { key, ty } => {
+            Call::Put { key, arrival_of: Some(fetched), ty } if fetched != ty => {
+                // the fetched version arrived and was stored as a merge: its fetch is over
+                let e = (self.w.keys[*key].clone(), fetched.clone());
+                self.cx.count("arrivals-stored-as-a-merged-version");
+                if pre_in.contains_key(&e) && post_in.get(&e) == pre_in.get(&e) && !returned.iter().any(|(_, k)| *k == e.0) {
+                    viols.push(("arrived-record-still-in-flight:stored-as-a-merged-version", format!("the fetch of k{}:{} is still in flight after the fetched record arrived and was stored (merged) as {}", key, ty_str(fetched), ty_str(ty))));
+                }
+            }
+            Call::Put { key, ty, .. } | Call::Early { key, ty } => {
                 let e = (self.w.keys[*key].clone(), ty.clone());
                 if pre_in.contains_key(&e) && post_in.contains_key(&e) && !returned.iter().any(|(_, k)| *k == e.0) {
                     viols.push((
@@ -466,11 +476,13 @@ impl Check for C08 {
                     let key = r.w.idx(&e.0);
                     // usually the fetched version, sometimes another version of the key
                     let ty = if r.cx.rng.gen_bool(0.85) { e.1.clone() } else { r.w.versions[key].choose(&mut r.cx.rng).expect("nonempty").clone() };
-                    Call::Put { key, ty }
+                    // a version-bearing record that arrives may be stored as a merge (another version): the arrival is that of the fetched one
+                    let arrival_of = if matches!(e.1, RecordType::NonChunk(_)) { Some(e.1.clone()) } else { None };
+                    Call::Put { key, ty, arrival_of }
                 } else {
                     let key = r.cx.rng.gen_range(0..nk);
                     let ty = r.w.versions[key].choose(&mut r.cx.rng).expect("nonempty").clone();
-                    Call::Put { key, ty }
+                    Call::Put { key, ty, arrival_of: None }
                 }
             } else if roll < 68 {
                 let inflight: Vec<Ent> = r.w.inflight_sorted();
@@ -550,7 +562,7 @@ impl Check for C08 {
                     }
                     // the arriving version is the one in flight for that key (any)
                     let ty = r.w.inflight_sorted().into_iter().find(|e| e.0 == key).map(|e| e.1).unwrap_or_else(|| r.w.versions[ki][0].clone());
-                    let more = r.step(Call::Put { key: ki, ty });
+                    let more = r.step(Call::Put { key: ki, ty, arrival_of: None });
                     issued.extend(more);
                 }
                 if fetched_round.is_some() {
@@ -595,7 +607,7 @@ impl Check for C08 {
                         }
                         let ki = r.w.idx(&fk);
                         let ty = r.w.inflight_sorted().into_iter().find(|e| e.0 == fk).map(|e| e.1).unwrap_or_else(|| r.w.versions[ki][0].clone());
-                        issued.extend(r.step(Call::Put { key: ki, ty }));
+                        issued.extend(r.step(Call::Put { key: ki, ty, arrival_of: None }));
                     }
                     r.step(Call::Age(5));
                 }
